@@ -211,7 +211,13 @@ pub fn props(r: &mut Rng, ctx: u8, big: bool) -> Props {
         0..=2 => 0,
         3 => 1,
         4 => 2,
-        _ => r.range(3, 8),
+        _ => {
+            if !cfg!(miri) && r.chance(1, 40) {
+                r.range(100, 400) // long user-property lists
+            } else {
+                r.range(3, 8)
+            }
+        }
     };
     let mut p = props_with_mask(r, ctx, mask, nuser, big);
     // order is free on the wire: shuffle, the codec re-orders
@@ -566,6 +572,33 @@ pub fn host_for_props(r: &mut Rng, ctx: u8, ps: Props) -> RP {
         15 => RP::Auth { code: *r.pick(AUTH_V5), props: ps },
         _ => unreachable!(),
     }
+}
+
+/// G3 (property sections): a v5 packet of the type carrying context `ctx` whose property section
+/// (the bytes after its own length prefix) is exactly `target` bytes (target >= 5), made of user
+/// properties only, so that the section's length prefix sits on a width boundary.
+pub fn gen_props_sized(r: &mut Rng, ctx: u8, target: usize) -> RP {
+    const FULL: usize = 5 + 2 * 65_535;
+    let mut rem = target;
+    let mut ps: Props = Vec::new();
+    let mut one = |n: usize, ps: &mut Props| {
+        // a user property of exactly n bytes on the wire (n >= 5): id + 2 + name + 2 + value
+        let body = n - 5;
+        let a = body.min(65_535);
+        let b = body - a;
+        ps.push((USER_PROPERTY, PV::Pair(vec![b'n'; a], vec![b'v'; b])));
+    };
+    while rem >= FULL + 5 {
+        one(FULL, &mut ps);
+        rem -= FULL;
+    }
+    if rem > FULL {
+        one(rem - 5, &mut ps);
+        one(5, &mut ps);
+    } else if rem >= 5 {
+        one(rem, &mut ps);
+    }
+    host_for_props(r, ctx, ps)
 }
 
 /// G3: a packet whose remaining length is exactly `target` (target >= 8), built from a free-length field.
